@@ -160,6 +160,22 @@ def body(ctx):
                         lines.append("static_assert(au::origin_displacement(C{}, %s{}) == au::ZERO, \"no displacement\");" % m.cpp)
                     else:
                         lines.append("static_assert(au::origin_displacement(C{}, %s{}) == au::make_quantity<C>(%dLL), \"origin displacement\");" % (m.cpp, int(off)))
+            # the operators that go through the common point unit, with operands of DIFFERENT reps: the
+            # conversion happens in the common rep (a narrow operand is widened first, so a value
+            # whose image leaves its own rep is still exact)
+            if ok_all and len(members) == 2:
+                ma, mb = members[0], members[1]
+                ra, rb = ma.m / mC, mb.m / mC
+                oa, ob = (ma.o - oC) / mC, (mb.o - oC) / mC
+                xa, xb = 200, 3
+                va, vb = int(ra) * xa + int(oa), int(rb) * xb + int(ob)
+                if max(abs(va), abs(vb), abs(va - vb)) < 2 ** 40 and int(ra) < 2 ** 30 and int(rb) < 2 ** 30:
+                    pa = "au::make_quantity_point<%s>(std::uint8_t{%d})" % (ma.cpp, xa)
+                    pb = "au::make_quantity_point<%s>(std::int64_t{%d})" % (mb.cpp, xb)
+                    lines.append("static_assert((%s < %s) == %s && (%s > %s) == %s && (%s == %s) == %s, \"mixed-rep comparison through the common point unit\");"
+                                 % (pa, pb, "true" if va < vb else "false", pa, pb, "true" if va > vb else "false", pa, pb, "true" if va == vb else "false"))
+                    lines.append("static_assert((%s - %s) == au::make_quantity<C>(std::int64_t{%d}), \"mixed-rep point difference in the common point unit\");" % (pa, pb, va - vb))
+                    lines.append("static_assert(std::is_same<decltype(%s - %s), au::Quantity<C, std::int64_t>>::value, \"difference type\");" % (pa, pb))
             for p in list(itertools.permutations(ts))[1:]:
                 lines.append("static_assert(std::is_same<C, au::CommonPointUnitT<%s>>::value, \"permutation\");" % ", ".join(p))
             lines.append("static_assert(std::is_same<C, au::CommonPointUnitT<%s>>::value, \"repetition\");" % ", ".join(ts + [ts[0]]))
@@ -186,7 +202,7 @@ def body(ctx):
     nbad = witness.report_mismatches(ctx, items, results, prelude=prelude)
     ctx.coverage.update(dict(
         evaluations=len(lists) + len(items) * len(configs), distinct_nontrivial=len(lists),
-        rule="one seeded list (pair or triple) of point units from {Kelvins, Celsius, Fahrenheit, prefixed forms} and generated units with rational size (num, den < 1000) and rational origin (positive, zero, negative, expressed in another unit): size and origin of CommonPointUnitT are read out of the type; ratio and offset of every input are decided exactly in the model; in three lists of ten the members have EQUAL size and pairwise different origins and mix named units with anonymous scaled units of library / generated roots (Celsius*5/9, Kilo<Kelvins>/1800 next to Fahrenheit), so that the ordering criteria below the size decide; permutation / repetition identity, nesting, the function forms (common_point_unit, make_common_point and common_point_unit over point makers), winner-is-an-input and agreement with the library's own conversion and origin_displacement are static_asserts",
+        rule="one seeded list (pair or triple) of point units from {Kelvins, Celsius, Fahrenheit, prefixed forms} and generated units with rational size (num, den < 1000) and rational origin (positive, zero, negative, expressed in another unit): size and origin of CommonPointUnitT are read out of the type; ratio and offset of every input are decided exactly in the model; in three lists of ten the members have EQUAL size and pairwise different origins and mix named units with anonymous scaled units of library / generated roots (Celsius*5/9, Kilo<Kelvins>/1800 next to Fahrenheit), so that the ordering criteria below the size decide; permutation / repetition identity, nesting, the function forms (common_point_unit, make_common_point and common_point_unit over point makers), winner-is-an-input, mixed-rep comparison and difference of two members (a uint8_t value whose image leaves its own rep against an int64_t one: exact in the common rep) and agreement with the library's own conversion and origin_displacement are static_asserts",
         samples=[dict(list=[repr(m) for m in lists[0]])], exhaustive=False,
         lists=len(lists), lists_equal_size_three_or_more=neq, lists_without_common_point_unit_overflowing_origin_comparison=len(skipped_overflow), model_obligations=nob, model_discharged=ndis, w_items=len(items), w_mismatches=nbad, configs=[c.name for c in configs], engine_stats=stats))
     ctx.assumptions += ["maximality of the common point unit is NOT demanded (the statement does not ask for it)"]
